@@ -205,6 +205,15 @@ def run(rep):
                             elif np.shape(V0)[-1] != exact.size or float(np.max(np.abs(np.ravel(V0) - exact))) > 1e-12 * (1.0 + float(np.max(np.abs(exact)))):
                                 viol("AdaptiveInterpolationTable: default base point works for any number of parameters", f"{n} parameter(s)", cfg,
                                      f"max error {float(np.max(np.abs(np.ravel(V0) - exact))) if np.shape(V0)[-1] == exact.size else np.shape(V0)}")
+                        if len(set(npt)) == 1:
+                            # adaptive table whose base point is the UPPER corner of the box (every query lies below the base point)
+                            ok, Ah = _call(lambda: AdaptiveInterpolationTable(h.copy(), high.copy(), f))
+                            okv, Vh = _call(lambda: Ah.interpolate(X.copy())) if ok else (False, Ah)
+                            if not (ok and okv):
+                                viol("AdaptiveInterpolationTable: any grid node can serve as base point", f"base point = upper corner, {n} parameter(s)", cfg, Vh)
+                            elif np.shape(Vh)[-1] != exact.size or float(np.max(np.abs(np.ravel(Vh) - exact))) > 1e-12 * (1.0 + float(np.max(np.abs(exact)))) * (1e3 if bname == "far" else 1.0):
+                                viol("AdaptiveInterpolationTable: any grid node can serve as base point", f"base point = upper corner, {n} parameter(s)", cfg,
+                                     f"max error {float(np.max(np.abs(np.ravel(Vh) - exact))) if np.shape(Vh)[-1] == exact.size else np.shape(Vh)}")
                         # node values for scaling
                         nodes = itertools.product(*[[lo + (hi - lo) * Fr(k, m - 1) for k in range(m)] for lo, hi, m in zip(low_f, high_f, npt)])
                         scale = 1.0 + max(abs(float(f.exact([float(v) for v in nd]))) for nd in nodes)
